@@ -7,6 +7,7 @@
  *   usn  <alpha> <len> <from> <count>          strip_name
  *   uinc [base] <alpha> <len> <from> <count>   inc_lexically_normal + the paths inc_open tries to open
  *   ulp1 [s] | ucvp1 <policy> [s] | usn1 [s] | uinc1 [base] [name]      the same for one explicit string
+ *   uil <alpha> <len> <from> <count> | uil1 [list]   set_inc_list (list): the stored search path ("-" = entry dropped)
  * system style (file efuns called from LPC, libc file functions interposed and logged):
  *   policy deny|allow|echo|fixed=[str]|raise|raiseon=[path]|odd=[array|emptyarray|float|float0|object|neg|two]
  *                                              master policy for valid_read / valid_write
@@ -615,6 +616,26 @@ static void u_inc (const char *base, const char *name)
   vh_out ("%s", line);
 }
 
+/* set_inc_list (list): the entries it stores ("-" = dropped), then the previous search path is put back */
+static void u_il (const char *list)
+{
+  char **old = inc_list;
+  int oldn = inc_list_size;
+  char line[8000];
+  size_t o;
+  inc_list = 0;
+  inc_list_size = 0;
+  set_inc_list (list);
+  o = snprintf (line, sizeof line, "il [%s] ->", list);
+  for (int i = 0; i < inc_list_size && o < sizeof line - 1200; i++)
+    o += snprintf (line + o, sizeof line - o, inc_list[i] ? " [%s]" : " -", inc_list[i]);
+  vh_out ("%s", line);
+  if (inc_list)
+    reset_inc_list ();
+  inc_list = old;
+  inc_list_size = oldn;
+}
+
 /* ---- fixture -------------------------------------------------------------------------------------
  * mudlib root:  a/ (dir)  a/a (file)  a/aa/ (dir)  a/a.c (LPC)  aa (file)  aa.c (LPC)  a.c (LPC)
  *               d/ (dir)  d/f.txt  d/obj.c (LPC)  d/sub/ (dir)  d/inc.h   include/a  include/std.h
@@ -946,6 +967,24 @@ static int c15_cmd (char *line)
     {
       set_policy (tok[1], 1);
       u_cvp (unbr (tok[2]));
+      return 1;
+    }
+  if (!strcmp (tok[0], "uil1") && n == 2)
+    {
+      u_il (unbr (tok[1]));
+      return 1;
+    }
+  if (!strcmp (tok[0], "uil") && n == 5)
+    {
+      int len = atoi (tok[2]);
+      long from = atol (tok[3]), cnt = atol (tok[4]);
+      if (len < 0 || len > 4000)
+	return 0;
+      for (long i = from; i < from + cnt; i++)
+	{
+	  nth_string (tok[1], len, i, sbuf);
+	  u_il (sbuf);
+	}
       return 1;
     }
   if (!strcmp (tok[0], "uinc1") && n == 3)
